@@ -121,7 +121,7 @@ Theorem C11_freshness_guards_are_the_source_guards :
      if g_hb_first (c_hb c) then (mkCopy hb (c_gc c) (c_max c) (c_kvs c), false)
      else if g_hb_fresh hb (c_hb c) then (mkCopy hb (c_gc c) (c_max c) (c_kvs c), true)
      else (c, false)) /\
-  ((forall hb, rs_hb_first hb = g_hb_first hb) \/ (forall hb, rs_hb_first hb = negb (g_hb_first hb))) /\
+  ((forall hb nhb, rs_hb_first hb nhb = g_hb_first hb) \/ (forall hb nhb, rs_hb_first hb nhb = negb (g_hb_first hb))) /\
   ((forall nhb hb, rs_hb_fresh nhb hb = g_hb_fresh nhb hb) \/ (forall nhb hb, rs_hb_fresh nhb hb = negb (g_hb_fresh nhb hb))) /\
   ((forall i m, rs_fd_interval i m = g_fd_interval i m) \/ (forall i m, rs_fd_interval i m = negb (g_fd_interval i m))).
 Proof. exact (conj try_set_heartbeat_is_the_tree (conj tie_hb_first (conj tie_hb_fresh tie_fd_interval))). Qed.
